@@ -271,11 +271,12 @@ def verify_args(mode, nq, nt):
 FAMILIES = {
     "C04": [("verify", verify_args("tamper", 60, 100000))],
     "C05": [("verify", verify_args("coverage", 80, 100000)), ("verify", verify_args("tamper", 30, 400))],
+    "C06": [("verify", verify_args("signverify", 40, 600)), ("verify", verify_args("keys", 24, 200))],
     "C07": [("verify", verify_args("keys", 48, 600))],
     "C16": [("verify", verify_args("legacy", 10, 200))],
     "C17": [("verify", verify_args("signedby", 50, 800))],
     "C01": [("hist", hist_args)],
-    "C12": [("determ", determ_args)],
+    "C12": [("determ", determ_args), ("verify", verify_args("signverify", 24, 300))],
     "C14": [("backend", backend_args), ("lockstep", lockstep_args)],
     "C02": [("hist", hist_args), ("load", load_args)],
     "C03": [("hist", hist_args), ("load", load_args)],
